@@ -340,3 +340,199 @@ def run(ctx):
     ctx.guard("C11.R2", "driver", lambda: r2_driver(ctx))
     ctx.guard("C11.R3", "operators", lambda: r3_operators(ctx))
     ctx.guard("C11.R4", "fitness pressure", lambda: r4_fitness_pressure(ctx))
+    ctx.guard("C11.R5", "sampling operators", lambda: r5_sampling_operators(ctx))
+
+
+# ------------------------------------------------------------------ R5: the sampling and DE operators on numeric objectives
+
+SO = "mahf::problems::objective::single::SingleObjective"
+
+
+def num_pop(vals):
+    return tuple(Agg("adt", c07.IND, "Individual", [Sym("s:%d" % i), some(Agg("adt", SO, "SingleObjective", [v]))]) for i, v in enumerate(vals))
+
+
+def run_select_num(F, fn, me, vals, table, extra_inline=()):
+    FU = SEL + "functional::"
+    inl = lambda k: k not in (table or {}) and (INL(k) or k.startswith(FU) or k.startswith("mahf::utils::") or any(k.startswith(x) for x in extra_inline))
+    it = install(Interp(fn.body, chain(mk_oracle(sample_oracle(table)), coll_oracle, std_oracle), [me, Vec("cur", borrowed=True), Sym("rng")], facts=F, inline=inl, max_visits=40))
+    it.init_state = {"heap": {"cur": num_pop(vals)}, "next_vec": 0}
+    return it.run()
+
+
+def r5_sampling_operators(ctx):
+    """K6 with exact objective values: every remaining operator returns references to source members only, in the
+    documented number and group format, an error (not a panic) for the inputs documented as unusable, and the
+    deterministic ones never give a worse individual more copies than a better one."""
+    F = ctx.facts
+    C = SEL + "common::"
+    FU = SEL + "functional::"
+    inf = float("inf")
+    grids = [[1.0, 2.0, 3.0], [3.0, 1.0], [-1.0, 0.0, 2.0], [2.0, 2.0, 2.0], [5.0], [-3.0, -5.0, -10.0, -2.0]]
+    total = 0
+
+    def wheel_table(idx, captured):
+        def wnew(interp, env, f, args):
+            w = iter_vals(interp, env, load(interp, env, args[0]))
+            captured.append(w)
+            if w is None or any(not isinstance(x, (int, float)) or isinstance(x, bool) for x in w):
+                return TOP
+            if not w or any(not (x >= 0) for x in w) or not any(x > 0 for x in w):
+                return err(Sym("WeightedError"))
+            return ok(Sym("wheel", {"n": len(w)}))
+
+        def siter(interp, env, f, args):
+            return Agg("repeat", None, None, [idx])
+        return {"rand::distributions::weighted_index::WeightedIndex::new": wnew, "rand::distributions::distribution::Distribution::sample_iter": siter,
+                "rand::distributions::Distribution::sample_iter": siter}
+
+    # ---- sample_population_weighted + the four weighted operators
+    ops = [("RouletteWheel", {"offset": (0.0, 0.5)}), ("LinearRank", {}), ("ExponentialRank", {"base": (0.5,)})]
+    for name, params in ops:
+        adt = C + name
+        fn = F.method(adt, "select", SELT)
+        bad = []
+        cnt = 0
+        pname = next(iter(params), None)
+        for pv in (params[pname] if pname else (None,)):
+            for vals in grids + [[1.0, inf], [inf, inf]]:
+                for k in (0, 1, 3):
+                    for idx in range(len(vals)):
+                        cnt += 1
+                        fields = {F.field_index(adt, "num_selected"): k}
+                        if pname:
+                            fields[F.field_index(adt, pname)] = pv
+                        captured = []
+                        tab = wheel_table(idx, captured)
+                        # dense ranks, 1 = lowest objective (reverse_rank is pinned by six unit tests and cross-checked in R4)
+                        svals = sorted(set(vals))
+                        tab[FU + "reverse_rank"] = lambda interp, env, f, args, vals=vals, svals=svals: __import__("collmodel").new_vec(interp, [svals.index(v) + 1 for v in vals])
+                        for p in run_select_num(F, fn, Sym("self", fields), vals, tab):
+                            got = picked(p)
+                            where = (vals, k, "%s=%s, " % (pname, pv) if pname else "")
+                            if p.end != "return":
+                                bad.append(where + ("does not return (%s)" % p.end,))
+                            elif name == "RouletteWheel" and any(v == inf for v in vals):
+                                if not (isinstance(p.ret, Agg) and p.ret.variant == "Err"):
+                                    bad.append(where + ("yields %s for infinite objective values (an error is documented)" % (p.ret,),))
+                            elif got != [idx] * k:
+                                bad.append(where + ("with the sampler drawing index %d yields %s, expected %d references to that member" % (idx, got if got is not None else p.ret, k),))
+        total += cnt
+        ctx.check(not bad, "C11.R5", fn.key, "requested-number-of-sampled-members", "objectives %s, %s requested, %s%s" % (bad[0] if bad else ("", "", "", "")), detail="%d scenarios" % cnt, loc=fn.loc())
+    # ---- FullyRandom
+    fn = F.method(C + "FullyRandom", "select", SELT)
+    ni = F.field_index(C + "FullyRandom", "num_selected")
+    bad = []
+    for n in range(1, 4):
+        for k in range(0, 4):
+            for p in run_select(F, fn, Sym("self", {ni: k}), n):
+                got = picked(p)
+                if p.end != "return" or got is None or len(got) != k:
+                    bad.append((n, k, "%s %s" % (p.end, got if got is not None else p.ret)))
+    ctx.check(not bad, "C11.R5", fn.key, "n-members", "population of %s, %s requested: %s" % (bad[0] if bad else ("", "", "")), loc=fn.loc())
+    # ---- stochastic universal sampling
+    adt = C + "StochasticUniversalSampling"
+    fn = F.method(adt, "select", SELT)
+    bad = []
+    cnt = 0
+    for vals in grids:
+        for offset in (0.0, 0.5):
+            for k in (1, 2, 3, 5):
+                for u in (0.25, 0.5, 0.999):
+                    cnt += 1
+                    me = Sym("self", {F.field_index(adt, "num_selected"): k, F.field_index(adt, "offset"): offset})
+                    for p in run_select_num(F, fn, me, vals, {"rand::rng::Rng::gen": u}):
+                        got = picked(p)
+                        where = (vals, offset, k, u)
+                        if p.end != "return" or got is None:
+                            bad.append(where + ("%s %s" % (p.end, p.ret),))
+                            continue
+                        if len(got) != k:
+                            bad.append(where + ("selects %d members %s" % (len(got), got),))
+                            continue
+                        cnts = [got.count(i) for i in range(len(vals))]
+                        for i in range(len(vals)):
+                            for j in range(len(vals)):
+                                if vals[i] < vals[j] and cnts[i] + 1 < cnts[j]:
+                                    bad.append(where + ("selects the better objective %s %d times and the worse %s %d times" % (vals[i], cnts[i], vals[j], cnts[j]),))
+    total += cnt
+    ctx.check(not bad, "C11.R5", fn.key, "n-members-proportional", "objectives %s, offset %s, %s requested, start draw %s: %s" % (bad[0] if bad else ("", "", "", "", "")), detail="%d scenarios" % cnt, loc=fn.loc())
+    # infinite objectives are an error
+    bad = []
+    for vals in ([1.0, inf], [inf]):
+        me = Sym("self", {F.field_index(adt, "num_selected"): 2, F.field_index(adt, "offset"): 0.0})
+        for p in run_select_num(F, fn, me, vals, {"rand::rng::Rng::gen": 0.5}):
+            if p.end != "return" or not (isinstance(p.ret, Agg) and p.ret.variant == "Err"):
+                bad.append((vals, "%s %s" % (p.end, p.ret)))
+    ctx.check(not bad, "C11.R5", fn.key, "infinite-objectives-are-errors", "objectives %s: %s" % (bad[0] if bad else ("", "")), loc=fn.loc())
+    # ---- deterministic fitness proportional (IWO)
+    adt = SEL + "iwo::DeterministicFitnessProportional"
+    fn = F.method(adt, "select", SELT)
+    bad = []
+    cnt = 0
+    for vals in grids + [[0.0, 10.0, 5.0, 2.5]]:
+        for lo, hi in ((0, 0), (1, 1), (0, 4), (1, 3), (2, 5)):
+            cnt += 1
+            me = Sym("self", {F.field_index(adt, "min_selected"): lo, F.field_index(adt, "max_selected"): hi})
+            for p in run_select_num(F, fn, me, vals, {}):
+                got = picked(p)
+                where = (vals, lo, hi)
+                if p.end != "return" or got is None:
+                    bad.append(where + ("%s %s" % (p.end, p.ret),))
+                    continue
+                cnts = [got.count(i) for i in range(len(vals))]
+                if got != sorted(got):
+                    bad.append(where + ("does not keep the population order: %s" % got,))
+                if any(not (lo <= c <= hi) for c in cnts):
+                    bad.append(where + ("selects members %s times" % cnts,))
+                if len(set(vals)) > 1:
+                    b, w = vals.index(min(vals)), vals.index(max(vals))
+                    if cnts[b] != hi or cnts[w] != lo:
+                        bad.append(where + ("selects the best %d and the worst %d times" % (cnts[b], cnts[w]),))
+                for i in range(len(vals)):
+                    for j in range(len(vals)):
+                        if vals[i] < vals[j] and cnts[i] < cnts[j]:
+                            bad.append(where + ("selects the better objective %s %d times and the worse %s %d times" % (vals[i], cnts[i], vals[j], cnts[j]),))
+    for vals in ([1.0, inf], [inf, inf]):
+        me = Sym("self", {F.field_index(adt, "min_selected"): 1, F.field_index(adt, "max_selected"): 3})
+        for p in run_select_num(F, fn, me, vals, {}):
+            if p.end != "return" or not (isinstance(p.ret, Agg) and p.ret.variant == "Err"):
+                bad.append((vals, 1, 3, "yields %s %s for infinite objective values (an error is documented)" % (p.end, p.ret)))
+    total += cnt
+    ctx.check(not bad, "C11.R5", fn.key, "copies-interpolate-between-min-and-max", "objectives %s, min %s, max %s: %s" % (bad[0] if bad else ("", "", "", "")), detail="%d scenarios" % cnt, loc=fn.loc())
+    # ---- DE selections: group format
+    D = SEL + "de::"
+    for name, head, rnd in (("DERand", [], lambda y: 2 * y + 1), ("DEBest", ["best"], lambda y: 2 * y), ("DECurrentToBest", ["current", "best"], lambda y: 2 * y - 1)):
+        adt = D + name
+        fn = F.method(adt, "select", SELT)
+        bad = []
+        cnt = 0
+        for y in (1, 2):
+            for vals in ([3.0, 1.0, 2.0, 5.0, 4.0, 0.5], [1.0, 1.0, 2.0, 3.0, 4.0, 5.0, 6.0]):
+                cnt += 1
+                n = len(vals)
+                me = Sym("self", {F.field_index(adt, "y"): y})
+                for p in run_select_num(F, fn, me, vals, {}):
+                    got = picked(p)
+                    where = (vals, y)
+                    g = 2 * y + 1
+                    if p.end != "return" or got is None:
+                        bad.append(where + ("%s %s" % (p.end, p.ret),))
+                        continue
+                    if len(got) != n * g:
+                        bad.append(where + ("yields %d references, expected %d groups of %d" % (len(got), n, g),))
+                        continue
+                    best = min(range(n), key=lambda i: vals[i])
+                    for gi in range(n):
+                        grp = got[gi * g:(gi + 1) * g]
+                        exp_head = [{"best": best, "current": gi}[h] for h in head]
+                        if [vals[i] for i in grp[:len(head)]] != [vals[i] for i in exp_head] or ("current" in head and grp[0] != gi):
+                            bad.append(where + ("group %d starts with members %s, expected %s (%s)" % (gi, grp[:len(head)], exp_head, "/".join(head)),))
+                        tail = grp[len(head):]
+                        if len(set(tail)) != len(tail) or len(tail) != rnd(y):
+                            bad.append(where + ("group %d samples %s, expected %d distinct members" % (gi, tail, rnd(y)),))
+                        if "current" in head and gi in tail:
+                            bad.append(where + ("group %d samples the current individual again: %s" % (gi, grp),))
+        total += cnt
+        ctx.check(not bad, "C11.R5", fn.key, "de-group-format", "objectives %s, y=%s: %s" % (bad[0] if bad else ("", "", "")), detail="%d scenarios" % cnt, loc=fn.loc())
+    ctx.count("sampling_operator_scenarios", total)
